@@ -12,6 +12,7 @@ def run(ctx, rep):
     cg.rule_sites(rep, crate, want=('C09',))
     cg.rule_complexity(rep, crate)
     cg.rule_priority_parse(rep, crate)
+    cg.rule_priority_writers(rep, crate)
     # "it wins or the derive reports an ambiguity": the winner of a state is the leaf with the maximum priority, ties are errors
     from props import c08
     c08.rule_state_type(rep, crate)
